@@ -4,7 +4,8 @@ NB = []
 R3 = {"name": "hmm_3st_replay", "harness": H, "entry": "r_hmm_3st", "native_replay": True, "canary": False,
       "native_sources": ["src/ckd_alloc.c", "src/err.c", "src/listelem_alloc.c", "src/glist.c"], "allow_no_body": NB, "unwind": 14}
 GROUPS = [
-    dict(name="hmm_vit_eval_3st_lr", harness=H, enforce="hmm_vit_eval_3st_lr", min_postconditions=12, replay=R3, allow_no_body=NB),
+    dict(name="hmm_vit_eval_3st_lr", harness=H, enforce="hmm_vit_eval_3st_lr", min_postconditions=15, replay=R3, allow_no_body=NB),
+    dict(name="hmm_enter", harness=H, enforce="hmm_enter", min_postconditions=1, allow_no_body=NB),
     dict(name="hmm_vit_eval_3st_lr_mpx", harness=H, enforce="hmm_vit_eval_3st_lr_mpx", min_postconditions=12, allow_no_body=NB),
     dict(name="history_entry_add", harness="harness/C02_history.c", entry="r_history_entry_add", allow_no_body=["*"], unwind=6, extra_sources=["@src/glist.c"],
          replay={"name": "history_entry_add_replay", "harness": "harness/C02_history.c", "entry": "r_history_entry_add", "native_replay": True, "canary": False, "allow_no_body": ["*"], "unwind": 6,
@@ -13,6 +14,11 @@ GROUPS = [
 ]
 
 NATIVE = [
+    dict(name="lextree_triphone_enum", source="native/lextree_triphone_enum.c", repo_sources="ALL_EXCEPT:", cflags=["-w", "-fsanitize=address"],
+         args={"quick": [], "thorough": ["thorough"]}, exhaustive=False, timeout=900,
+         bound="every lextree node of 42 (thorough 402) grammars over tests/data/turtle.dic (en-us; listed chain / union grammars, pseudo-random grammars of 3..5 states and 4..9 word arcs, "
+               "one 3-word dictionary with a word added at run time): node senone sequence == the model definition's triphone for every left / right context the node serves "
+               "(bin_mdef_phone_id_nearest, independent of dict2pid's tables), and every (word arc, context) is served"),
     dict(name="viterbi_union_enum", source="native/viterbi_union_enum.c", repo_sources="ALL_EXCEPT:", cflags=["-w", "-fsanitize=address"],
          args={"quick": [], "thorough": ["thorough"]}, exhaustive=False, timeout=3000,
          bound="metamorphic run on tests/data/goforward.raw (en-us, all beams 0, batch CMN, compallsen): for 48 ordered pairs (thorough 240) of sentences whose words share leading phones "
